@@ -80,7 +80,11 @@ func lineTuple(r rune) segTuple {
 	lc := ucd.LookupLineBreakClass(r)
 	ty := ucd.LookupType(r)
 	t := segTuple{k: 'l', C: lbNames[lc]}
-	if lc == ucd.BreakOP || lc == ucd.BreakCP {
+	// East Asian width matters to the rules for OP and CP only (LB30); it is also recorded for the classes
+	// LB9 makes transparent, so that the enumeration has a wide and a narrow representative of them: an
+	// implementation that looks at the width of the rune just before the break instead of the base's
+	// behaves differently on the two
+	if lc == ucd.BreakOP || lc == ucd.BreakCP || lc == ucd.BreakCM || lc == ucd.BreakZWJ {
 		t.Ea = unicode.Is(ucd.LargeEastAsian, r)
 	}
 	t.Epcn = unicode.Is(ucd.Extended_Pictographic, r) && ty == nil
